@@ -171,6 +171,17 @@ def agreement_encodings():
         ("np.float32", enc_scalar({0: np.float32(0.1), 1: np.float32(-7.5)})),
         ("np.str_", enc_scalar({0: np.str_("a"), 1: np.str_("b")})),
         ("complementary pair", lambda yt, yp, r: (1 - yt, 1 - yp)),
+        # distinct labels that are numerically *close* (a tolerance-based comparison would merge them)
+        ("close ints 100000/100001", enc_scalar({0: 100000, 1: 100001})),
+        ("close ints 20240101/20240102", enc_scalar({0: 20240101, 1: 20240102})),
+        ("close ints 2**53/2**53+2", enc_scalar({0: 2**53, 1: 2**53 + 2})),
+        ("close np.int64 2**53/2**53+2", enc_scalar({0: np.int64(2**53), 1: np.int64(2**53 + 2)})),
+        ("close np.int64 100000/100001", enc_scalar({0: np.int64(100000), 1: np.int64(100001)})),
+        ("tiny floats 1e-9/2e-9", enc_scalar({0: 1e-9, 1: 2e-9})),
+        ("tiny floats 0.0/1e-12", enc_scalar({0: 0.0, 1: 1e-12})),
+        ("large floats 1e16/1e16+2", enc_scalar({0: 1e16, 1: 1e16 + 2.0})),
+        ("close floats 1.0/1.0+2**-40", enc_scalar({0: 1.0, 1: 1.0 + 2.0**-40})),
+        ("close classes 7/7+1e-10/7+2e-10, same agreement", enc_multiclass([7.0, 7.0 + 1e-10, 7.0 + 2e-10])),
         ("5 int classes, same agreement", enc_multiclass([0, 1, 2, 3, 4])),
         ("4 string classes, same agreement", enc_multiclass(["n", "e", "s", "w"])),
         ("3 float classes, same agreement", enc_multiclass([0.0, 1.5, -2.0])),
